@@ -126,11 +126,18 @@ func (w *c16World) canon() string {
 	return fmt.Sprint(w.entries) + "|" + w.cacheCanon()
 }
 
+// c16MaxCache: bare: 2 (three harness keys never fit). Full-state flavours: the 16 state components + 1, so that
+// with two harness keys the capacity clear happens in the middle of a root computation.
 func c16MaxCache(flavour string) int {
+	if v := os.Getenv("C16_MAXCACHE"); v != "" { // development knob
+		n := 0
+		fmt.Sscanf(v, "%d", &n)
+		return n
+	}
 	if flavour == "bare" {
 		return 2
 	}
-	return 18 // the 16 state components + 2
+	return 17
 }
 
 // c16New resets every process-global the cache path reads and builds a fresh chain state.
@@ -373,7 +380,7 @@ func TestVerif_C16(t *testing.T) {
 	}
 	cfgs := []cfg{{"bare", 3}}
 	if r.Thorough() {
-		cfgs = append(cfgs, cfg{"bare", 4}, cfg{"persist", 3}, cfg{"build", 3})
+		cfgs = append(cfgs, cfg{"bare", 4}, cfg{"persist", 2}, cfg{"build", 2})
 	}
 	if only := os.Getenv("C16_ONLY"); only != "" { // development knob: one configuration, e.g. persist:3
 		var c cfg
